@@ -296,3 +296,49 @@ Proof.
   - destruct f as [|f]; [lia|].
     destruct (IH' f) as (o0 & Ho & Hb); [lia|lia|]. exists o0. split; [right; exact Ho|exact Hb].
 Qed.
+
+(* ---------- order independence of the v1 max-finalized block number (C01) ---------- *)
+Theorem max_finalized_block_order_independent ks xs f :
+  Permutation ks (nodup_Z (valid_vals xs)) ->
+  max_finalized_block_order ks xs f = max_finalized_block xs f.
+Proof.
+  intros HP. unfold max_finalized_block, max_finalized_block_order.
+  destruct (length _ <? f + 1)%nat; [reflexivity|].
+  set (v := valid_vals xs) in *. destruct (max_count v v <? f + 1)%nat; [reflexivity|].
+  assert (E : isort Z.ltb (filter (fun k => (count_Z k v =? max_count v v)%nat) ks) =
+              isort Z.ltb (filter (fun k => (count_Z k v =? max_count v v)%nat) (nodup_Z v))); [|rewrite E; reflexivity].
+  assert (Hperm : Permutation (filter (fun k => (count_Z k v =? max_count v v)%nat) ks)
+                              (filter (fun k => (count_Z k v =? max_count v v)%nat) (nodup_Z v))).
+  { clear - HP. induction HP; simpl.
+    - constructor.
+    - destruct (count_Z x v =? max_count v v)%nat; [constructor|]; assumption.
+    - destruct (count_Z x v =? max_count v v)%nat, (count_Z y v =? max_count v v)%nat; try reflexivity. apply perm_swap.
+    - etransitivity; eassumption. }
+  assert (Hnd : NoDup (filter (fun k => (count_Z k v =? max_count v v)%nat) ks)).
+  { apply NoDup_filter. apply (Permutation_NoDup (Permutation_sym HP)). apply nodup_Z_nodup. }
+  (* sorted duplicate-free lists with the same elements coincide *)
+  set (l1 := filter _ ks) in *. set (l2 := filter _ (nodup_Z v)) in *.
+  assert (S1 := isort_asc Z.le Z.ltb Z.le_trans Zltb_le Znltb_le l1).
+  assert (S2 := isort_asc Z.le Z.ltb Z.le_trans Zltb_le Znltb_le l2).
+  assert (P1 := isort_perm Z.ltb l1). assert (P2 := isort_perm Z.ltb l2).
+  assert (N1 : NoDup (isort Z.ltb l1)) by (apply (Permutation_NoDup (Permutation_sym P1)); exact Hnd).
+  assert (N2 : NoDup (isort Z.ltb l2)) by (apply (Permutation_NoDup (Permutation_sym P2)); apply (Permutation_NoDup Hperm); exact Hnd).
+  assert (Hin : forall x, In x (isort Z.ltb l1) <-> In x (isort Z.ltb l2)).
+  { intros x. split; intros H.
+    - apply (Permutation_in _ (Permutation_sym P2)). apply (Permutation_in _ Hperm). apply (Permutation_in _ P1). exact H.
+    - apply (Permutation_in _ (Permutation_sym P1)). apply (Permutation_in _ (Permutation_sym Hperm)). apply (Permutation_in _ P2). exact H. }
+  revert S1 S2 N1 N2 Hin. generalize (isort Z.ltb l1) (isort Z.ltb l2). clear.
+  induction l as [|a l IH]; intros l' S1 S2 N1 N2 Hin.
+  - destruct l' as [|b l']; [reflexivity|]. exfalso. apply (proj2 (Hin b)). left. reflexivity.
+  - destruct l' as [|b l']; [exfalso; apply (proj1 (Hin a)); left; reflexivity|].
+    inversion S1 as [|? ? S1' A1]; subst. inversion S2 as [|? ? S2' A2]; subst.
+    inversion N1 as [|? ? Na N1']; subst. inversion N2 as [|? ? Nb N2']; subst.
+    rewrite Forall_forall in A1, A2.
+    assert (a = b).
+    { assert (a <= b) by (destruct (proj2 (Hin b) (or_introl eq_refl)) as [-> | Hj]; [lia|apply A1; exact Hj]).
+      assert (b <= a) by (destruct (proj1 (Hin a) (or_introl eq_refl)) as [-> | Hi]; [lia|apply A2; exact Hi]). lia. }
+    subst b. f_equal. apply IH; try assumption.
+    intros x. split; intros Hx.
+    + destruct (proj1 (Hin x) (or_intror Hx)) as [-> | ?]; [contradiction|assumption].
+    + destruct (proj2 (Hin x) (or_intror Hx)) as [-> | ?]; [contradiction|assumption].
+Qed.
